@@ -4,8 +4,8 @@ import SpecterModel.C35.Gen
 # C35 model — `(*Gateway).proxyRewrite` (gateway/proxy_handler.go)
 
 `http.Header` (a `map[string][]string` whose keys are canonical MIME header names) is a function
-`String → List String` (`[]` = absent). The header statements of `proxyRewrite` are GENERATED
-(`Gen.C35.rewriteOps`, `Gen.C35.delHeaders`) and interpreted here; `ProxyRequest.SetXForwarded` is
+`String → List String` (`[]` = absent). The host-selection chain (`Gen.C35.hostRule`, `hostDefault`) and the
+header statements (`Gen.C35.rewriteOps`, `Gen.C35.delHeaders`) of `proxyRewrite` are GENERATED and interpreted here; `ProxyRequest.SetXForwarded` is
 modelled after its source (go1.26 net/http/httputil). Library results that enter as inputs:
 `net.SplitHostPort(in.RemoteAddr)` (`peer`), `url.URL.Hostname()` (`hostnameOf`).
 -/
@@ -27,18 +27,37 @@ abbrev XRI := "X-Real-Ip"          -- canonical form of X-Real-IP
 /-- what `proxyRewrite` reads from the inbound request -/
 structure Req where
   protoMajor : Nat
+  protoMinor : Nat
   tls : Option String        -- `in.TLS.ServerName` when `in.TLS != nil`
-  host : String              -- `in.Host`
+  host : String              -- `in.Host` (Host header for HTTP/1.x, :authority for HTTP/2 and HTTP/3)
   peer : Option String       -- host part of `net.SplitHostPort(in.RemoteAddr)`, `none` on error
 
 structure Env where
   port : Nat                         -- g.GatewayPort
   hostnameOf : String → String       -- (&url.URL{Host: h}).Hostname()
 
-/-- `out.URL.Host` after the first part of `proxyRewrite`:
-HTTP/2 and HTTP/3 → `in.Host`; HTTP/1.1 over TLS → SNI; plain HTTP/1.1 → `in.Host`; then `.Hostname()`. -/
-def urlHost (e : Env) (i : Req) : String :=
-  e.hostnameOf (if 2 ≤ i.protoMajor then i.host else match i.tls with | some sni => sni | none => i.host)
+/-- a condition of the generated host-selection chain; `ProtoAtLeast` as in net/http:
+`r.ProtoMajor > major || r.ProtoMajor == major && r.ProtoMinor >= minor` -/
+def HostCond.holds (i : Req) : HostCond → Bool
+  | .protoAtLeast major minor => decide (major < i.protoMajor ∨ (i.protoMajor = major ∧ minor ≤ i.protoMinor))
+  | .protoMajorEq n => decide (i.protoMajor = n)
+  | .protoMajorGe n => decide (n ≤ i.protoMajor)
+  | .tlsPresent => i.tls.isSome
+
+/-- the value a branch assigns to `out.URL.Host`; `none` = nil dereference of `in.TLS` (the handler panics) -/
+def HostSrc.read (i : Req) : HostSrc → Option String
+  | .inHost => some i.host
+  | .sni => i.tls
+
+/-- `if c₁ { out.URL.Host = s₁ } else if c₂ { … } else { out.URL.Host = d }` -/
+def selHost (i : Req) : List (HostCond × HostSrc) → HostSrc → Option String
+  | [], d => d.read i
+  | (c, s) :: rest, d => if c.holds i then s.read i else selHost i rest d
+
+/-- `out.URL.Host` (= `out.Host`) after the host statements of `proxyRewrite`: the GENERATED selection chain
+(`Gen.C35.hostRule` / `hostDefault`), then `.Hostname()`. `none` = the handler panicked. -/
+def urlHost? (e : Env) (i : Req) : Option String :=
+  (selHost i Gen.C35.hostRule Gen.C35.hostDefault).map e.hostnameOf
 
 /-- `ProxyRequest.SetXForwarded` -/
 def setXForwarded (i : Req) (h : Hdr) : Hdr :=
@@ -50,19 +69,34 @@ def setXForwarded (i : Req) (h : Hdr) : Hdr :=
   let h2 := h1.set XFH i.host
   h2.set XFP (if i.tls.isSome then "https" else "http")
 
-def applyOp (e : Env) (i : Req) (h : Hdr) : HOp → Hdr
+/-- one header statement; `uh` = `out.URL.Host` as fixed by the host statements -/
+def applyOp (port : Nat) (uh : String) (i : Req) (h : Hdr) : HOp → Hdr
   | .delList ks => ks.foldl Hdr.del h
   | .del k => h.del k
   | .setXForwarded => setXForwarded i h
-  | .setHostPort k std => h.set k (if e.port = std then urlHost e i else urlHost e i ++ ":" ++ toString e.port)
+  | .setHostPort k std => h.set k (if port = std then uh else uh ++ ":" ++ toString port)
   | .setConst k v => h.set k v
 
-/-- Header map handed to the transport: the generated operation list applied to whatever
-`httputil.ReverseProxy` passes as `Out.Header`. -/
-def rewrite (e : Env) (i : Req) (out : Hdr) : Hdr := Gen.C35.rewriteOps.foldl (applyOp e i) out
+/-- the generated header operations applied to whatever `httputil.ReverseProxy` passes as `Out.Header` -/
+def rewriteWith (port : Nat) (uh : String) (i : Req) (out : Hdr) : Hdr :=
+  Gen.C35.rewriteOps.foldl (applyOp port uh i) out
+
+/-- Header map handed to the transport by `proxyRewrite` (`none` = panic in the host statements). -/
+def rewrite (e : Env) (i : Req) (out : Hdr) : Option Hdr :=
+  (urlHost? e i).map fun uh => rewriteWith e.port uh i out
+
+/-! ## The property statement's side (independent of the generated chain) -/
+
+/-- The host the client REQUESTED. HTTP/2 and HTTP/3 clients coalesce connections (one TLS/QUIC connection,
+opened with some SNI, carries requests for several hosts), so there the request's own `:authority` is the
+requested host, never the connection's SNI; an HTTP/1.1 connection over TLS is opened for one host, named by
+the SNI; a plain HTTP/1.1 request names it in `Host`. -/
+def requestedHost (i : Req) : String :=
+  if 2 ≤ i.protoMajor then i.host else match i.tls with | some sni => sni | none => i.host
+
+def withPort (port : Nat) (h : String) : String := if port = 443 then h else h ++ ":" ++ toString port
 
 /-- the value the property statement asks for in X-Forwarded-Host -/
-def wantHost (e : Env) (i : Req) : String :=
-  if e.port = 443 then urlHost e i else urlHost e i ++ ":" ++ toString e.port
+def wantHost (e : Env) (i : Req) : String := withPort e.port (e.hostnameOf (requestedHost i))
 
 end Specter.C35
